@@ -167,6 +167,39 @@ theorem root_of_compression {m : Nat} (ops : NumOps K) (hsq : ∀ x, 0 ≤ x →
   rw [lanczos_root_nonneg ops hsq Q V _ θ hθ hE, addJitter_eq, Matrix.mul_add, Matrix.add_mul,
     lanczos_compression Q A T hP, Matrix.mul_smul, Matrix.mul_one, Matrix.smul_mul]
 
+/-- inverse root on a rectangular orthonormal `Q` with as many columns as rows: `R⁻ R⁻ᵀ = (A + j·1)⁻¹`. -/
+theorem root_inv_full_of_card {m : Nat} (ops : NumOps K) (hsq : ∀ x, 0 ≤ x → ops.sqrt x * ops.sqrt x = x)
+    (Q : Matrix (Fin n) (Fin m) K) (A : Matrix (Fin n) (Fin n) K) (T V : Matrix (Fin m) (Fin m) K)
+    (θ : Fin m → K) (c : K) (hm : m = n) (hQ : Qᵀ * Q = 1) (hP : Qᵀ * A * Q = T) (hV : Vᵀ * V = 1)
+    (hE : V * Matrix.diagonal θ * Vᵀ = Matrix.of (addJitter T c)) (hθ : ∀ j, 0 < θ j) :
+    lanczosRootInv ops Q V θ * (lanczosRootInv ops Q V θ)ᵀ
+      = (A + c • (1 : Matrix (Fin n) (Fin n) K))⁻¹ := by
+  have hQ' : Q * Qᵀ = 1 := QQt_of_card Q hm hQ
+  have hJ : Q * Matrix.of (addJitter T c) * Qᵀ = A + c • (1 : Matrix (Fin n) (Fin n) K) := by
+    rw [addJitter_eq, Matrix.mul_add, Matrix.add_mul,
+      full_of_card Q A T hm hQ hP, Matrix.mul_smul, Matrix.mul_one, Matrix.smul_mul, hQ']
+  rw [lanczos_root_inv ops hsq Q V _ θ hθ hV hE]
+  symm
+  apply Matrix.inv_eq_right_inv
+  rw [← hJ]
+  set J : Matrix (Fin m) (Fin m) K := Matrix.of (addJitter T c) with hJdef
+  have hJJ : J * J⁻¹ = 1 := by
+    have hinv := inv_of_eigendecomposition V J θ (fun j => (hθ j).ne') hV hE
+    have hV' : V * Vᵀ = 1 := mul_eq_one_comm.mp hV
+    rw [hinv, ← hE]
+    have hdd : Matrix.diagonal θ * Matrix.diagonal (fun j => (θ j)⁻¹) = 1 := by
+      rw [Matrix.diagonal_mul_diagonal, ← Matrix.diagonal_one]
+      congr 1
+      funext j
+      exact mul_inv_cancel₀ (hθ j).ne'
+    calc V * Matrix.diagonal θ * Vᵀ * (V * Matrix.diagonal (fun j => (θ j)⁻¹) * Vᵀ)
+        = V * (Matrix.diagonal θ * (Vᵀ * V) * Matrix.diagonal (fun j => (θ j)⁻¹)) * Vᵀ := by
+          simp only [Matrix.mul_assoc]
+      _ = 1 := by rw [hV, Matrix.mul_one, hdd, Matrix.mul_one, hV']
+  calc Q * J * Qᵀ * (Q * J⁻¹ * Qᵀ) = Q * (J * (Qᵀ * Q) * J⁻¹) * Qᵀ := by
+        simp only [Matrix.mul_assoc]
+    _ = 1 := by rw [hQ, Matrix.mul_one, hJJ, Matrix.mul_one, hQ']
+
 /-! ### `minDiag` -/
 
 theorem foldl_min_spec {m : Nat} (T : Mat K m m) (l : List (Fin m)) :
